@@ -72,6 +72,12 @@ def rule_c(ctx, cone):
     ctx.check(0 < S < (1 << B), rid, "const:index-range", "SLOTS = %d < 1<<BITS = %d (every index 1..=SLOTS fits a lane and 0 means 'free')" % (S, 1 << B), None, (S, B))
     a = F.adt(CH)
     arr = [f["ty"] for f in a["variants"][0]["fields"] if f["ty"].startswith("[core::cell::UnsafeCell")]
+    if not arr:
+        adts_ = {x["path"]: x for c_, x in F.crate_items("adts")}
+        for f in a["variants"][0]["fields"]:
+            a2 = adts_.get(re.sub(r"<.*$", "", f["ty"]))
+            if a2 and len(a2["variants"]) == 1:
+                arr += [g["ty"] for g in a2["variants"][0]["fields"] if g["ty"].startswith("[core::cell::UnsafeCell")]
     ctx.check(bool(arr) and (arr[0].endswith("; %d]" % S) or "SLOTS" in arr[0]), rid, "const:array-len", "storage has SLOTS cells: %s" % arr, None, arr)
     new = method(F, "new", SIGINFO)
     words, cells = roles(F)
